@@ -72,7 +72,8 @@ func ccWait(c *ccontainer.CContainer[int], id, kind, old int, eq eqFn, ctx conte
 	case wEmpty:
 		err = c.WaitValueEmpty(ctx, errCh)
 	case wValid:
-		v, err = c.WaitValueWithValidator(ctx, func(x int) (bool, error) { return x >= 2, nil }, errCh)
+		// (the validator is user code run outside the cell's critical section: it may use the container)
+		v, err = c.WaitValueWithValidator(ctx, func(x int) (bool, error) { _ = c.GetValue(); return x >= 2, nil }, errCh)
 	case wValidNil:
 		v, err = c.WaitValueWithValidator(ctx, nil, errCh)
 	case wValidEr:
